@@ -617,8 +617,8 @@ def main(argv):
     bounded = None
     if not reported and unreached:
         # functions outside the verifier's reach: a bounded check on the real code stands in (labelled bounded)
-        bunits = sorted(set(o.split('/')[0] for o in unreached))
-        if any(u in DYNAMIC_UNITS for u in bunits):
+        bunits = sorted(set(o.split('/')[0] for o in unreached if o.split('/')[0] in DYNAMIC_UNITS))
+        if bunits:
             w = witness_search(prop, bunits, tier, seed)
             bounded = w
             if w.get('history'):
@@ -626,7 +626,10 @@ def main(argv):
                                      message=w['line'], site=None, rendered=w['line']))
                 failed_names.add(sorted(unreached)[0])
             elif w.get('none'):
-                undecided = [u for u in undecided if "outside the verifier's reach" not in u]
+                # only functions of units that HAVE a bounded stand-in are covered by it; obligations about interleavings
+                # (units interference / monotone) stay undecided
+                nodyn = sorted(set(o.split('/')[0] for o in unreached if o.split('/')[0] not in DYNAMIC_UNITS))
+                undecided = [u for u in undecided if "outside the verifier's reach" not in u or any(u.startswith('unit %s:' % nu) for nu in nodyn)]
                 notes.append('BOUNDED STAND-IN (not a proof): %d obligations of functions outside the verifier\'s reach were checked only by the bounded search on the real code: %s; %s'
                              % (len(unreached), w['bound'], w['stats']))
     explored = None
